@@ -191,13 +191,14 @@ theorem keepsMand (F : Facts15) (fuel : Nat) : KeepsMand F fuel := by
           · exact Keeps.pureT _ _
         · exact Keeps.fail _ _ _
 
-theorem keeps_subclassOp (F : Facts15) (hF : F.varRule = .ownPerClass) (base : Option Nat) (name : String)
-    (ns : Option String) (fields : List (String × Nat)) (perm : List Nat) :
-    Keeps Tr (subclassOp F base name ns fields perm) TrQ := by
+theorem keeps_subclassOp (F : Facts15) (hF : F.varRule = .ownPerClass) (hX : F.varRuleX = .ownPerClass)
+    (base : Option Nat) (name : String) (ns : Option String) (fields : List (String × Nat)) (perm : List Nat)
+    (attrs : Option Kw) :
+    Keeps Tr (subclassOp F base name ns fields perm attrs) TrQ := by
   unfold subclassOp
   refine Keeps.bind (Keeps.getCls Tr _) (fun bc => ?_)
   refine Keeps.bind (Keeps.liftExcept _ _) (fun ext => ?_)
-  exact Keeps.allocBoth_declared _ _ _ (by simp [hF]) (fun _ => ⟨rfl, rfl, rfl⟩)
+  exact Keeps.allocBoth_declared _ _ _ (by cases attrs <;> simp [declaredVariants, hF, hX]) (fun _ => ⟨rfl, rfl, rfl⟩)
 
 theorem keeps_xmlattrOp (F : Facts15) (src : Nat) : Keeps Tr (xmlattrOp F src) TrQ := by
   unfold xmlattrOp
@@ -266,7 +267,7 @@ theorem keeps_evolve (impl : Nat → M Unit) (hf : ∀ v, Keeps Tr (impl v) TrQ)
   refine Keeps.bind (Keeps.getHeap _) (fun h' => ?_)
   exact (keeps_forEach _ hf _).anyPre
 
-theorem keeps_opProg (F : Facts15) (hF : F.varRule = .ownPerClass) (fuel : Nat) (op : Op) :
+theorem keeps_opProg (F : Facts15) (hF : F.varRule = .ownPerClass) (hX : F.varRuleX = .ownPerClass) (fuel : Nat) (op : Op) :
     Keeps Tr (opProg F fuel op) TrQ := by
   cases op with
   | customize src kw ca caa =>
@@ -277,7 +278,7 @@ theorem keeps_opProg (F : Facts15) (hF : F.varRule = .ownPerClass) (fuel : Nat) 
     · exact (Keeps.map _ (keeps_customizeAny _ _ _ _)).anyPre
   | array src member kw flat iter => exact Keeps.map _ (keeps_arrayOp _ _ _ _ _ _ _)
   | mandatory src => exact Keeps.map _ ((keepsMand F fuel).mandatory src)
-  | subclass base name ns fields perm => exact Keeps.map _ (keeps_subclassOp F hF _ _ _ _ _)
+  | subclass base name ns fields perm attrs => exact Keeps.map _ (keeps_subclassOp F hF hX _ _ _ _ _ _)
   | append c name t =>
     simp only [opProg]
     refine Keeps.bind (Keeps.getCls Tr _) (fun cl => ?_)
@@ -295,13 +296,15 @@ theorem keeps_opProg (F : Facts15) (hF : F.varRule = .ownPerClass) (fuel : Nat) 
   | xmlattr src => exact Keeps.map _ (keeps_xmlattrOp _ _)
 
 /-- every operation - whether it returns or raises - keeps the variants discipline -/
-theorem inv_apply (F : Facts15) (hF : F.varRule = .ownPerClass) (fuel : Nat) (h : Heap) (op : Op) (ih : Inv h) :
-    Inv (apply F fuel h op).heap := (keeps_opProg F hF fuel op h ih trivial).1
+theorem inv_apply (F : Facts15) (hF : F.varRule = .ownPerClass) (hX : F.varRuleX = .ownPerClass) (fuel : Nat) (h : Heap)
+    (op : Op) (ih : Inv h) :
+    Inv (apply F fuel h op).heap := (keeps_opProg F hF hX fuel op h ih trivial).1
 
-theorem inv_runOps (F : Facts15) (hF : F.varRule = .ownPerClass) (fuel : Nat) (ops : List Op) :
+theorem inv_runOps (F : Facts15) (hF : F.varRule = .ownPerClass) (hX : F.varRuleX = .ownPerClass) (fuel : Nat)
+    (ops : List Op) :
     ∀ h, Inv h → Inv (runOps F fuel h ops) := by
   induction ops with
   | nil => intro h ih; exact ih
-  | cons op ops ihops => intro h ih; exact ihops _ (inv_apply F hF fuel h op ih)
+  | cons op ops ihops => intro h ih; exact ihops _ (inv_apply F hF hX fuel h op ih)
 
 end SpyneModel.Derive
